@@ -195,7 +195,14 @@ func genItems(rng *rand.Rand, v6 bool) []item {
 					m.AddOption(&dhcpv6.OptionGeneric{OptionCode: 65007, OptionData: gen4.Bytes(rng, []int{1400, 1490, 1600, 2900, 3100, 3800}[rng.IntN(6)])})
 				}
 				b := m.ToBytes()
-				for k := rng.IntN(5); k > 0; k-- { // relay nesting 0..4
+				exact := false
+				if rng.IntN(16) == 0 && len(b) < 4000 && m.GetOneOption(65007) == nil {
+					// exactly as long as the servers' read buffer (4096 octets), or one octet less: complete datagrams
+					m.AddOption(&dhcpv6.OptionGeneric{OptionCode: 65007, OptionData: gen4.Bytes(rng, 4096-rng.IntN(2)-len(b)-4)})
+					b = m.ToBytes()
+					exact = true
+				}
+				for k := rng.IntN(5); k > 0 && !exact; k-- { // relay nesting 0..4
 					h := make([]byte, 34)
 					h[0] = byte(12 + rng.UintN(2))
 					copy(h[2:], gen4.Bytes(rng, 32))
